@@ -198,7 +198,7 @@ fn run_packets(pk: &mut Pk, stream: &[u8], cuts: &[usize], with_handshake: bool)
     }
     // Ethernet minimum-frame padding (tiny segments) and a captured FCS after the IP datagram
     s.eth_trailer = [0u8, 0, 1, 2][(pk.episodes % 4) as usize];
-    s.c_stream(stream, cuts);
+    c_stream_fin(&mut s, stream, cuts, pk.episodes % 6 == 5);
     // every fifth episode the server says something between two client segments (an alert, a
     // banner, a ServerHello sent early, or a capture that interleaves the directions loosely):
     // data of the other direction is no part of the client's record and yields nothing itself
@@ -246,6 +246,26 @@ fn run_packets(pk: &mut Pk, stream: &[u8], cuts: &[usize], with_handshake: bool)
     h
 }
 
+/// The client's stream in order; with `fin` the last data segment also carries FIN (a client that
+/// half-closes with its last write: PSH|FIN|ACK with payload is an ordinary data segment).
+fn c_stream_fin(s: &mut Script, stream: &[u8], cuts: &[usize], fin: bool) {
+    if !fin {
+        s.c_stream(stream, cuts);
+        return;
+    }
+    let parts = crate::pkt::split_at(stream, cuts);
+    let n = parts.len();
+    for (i, part) in parts.into_iter().enumerate() {
+        if i + 1 == n {
+            let f = s.seg(true, s.c_next, s.s_next, flags::ACK | flags::PSH | flags::FIN, vec![], part);
+            s.c_next = s.c_next.wrapping_add(part.len() as u32 + 1);
+            s.frames.push(f);
+        } else {
+            s.c_data(part);
+        }
+    }
+}
+
 /// A TLS worker pool driven in lock-step: one segment is dispatched, the owning worker is
 /// awaited at its `WorkerProcessed` point (logical drain, not wall time), and -- for a seeded part
 /// of the segments -- the pool is then left idle for several worker time-outs before the next
@@ -275,7 +295,7 @@ fn run_workers(wp: &Wp, pk: &mut Pk, stream: &[u8], cuts: &[usize], with_handsha
         s.vary_ip.set(pk.episodes as u64 | 1);
     }
     s.eth_trailer = [0u8, 1, 0, 2][(pk.episodes % 4) as usize];
-    s.c_stream(stream, cuts);
+    c_stream_fin(&mut s, stream, cuts, pk.episodes % 6 == 1);
     crate::pool::reset_log(0, 0);
     let crate::pool::Handle::Tls(_, rx) = &wp.h else {
         h.stalled = true;
@@ -786,8 +806,19 @@ fn stage_workers(ctx: &mut Ctx, pk: &mut Pk) {
     // bursts: a worker that is kept busy with large unsegmented hellos finds the segments of
     // several other connections, interleaved, waiting in its queue (batches of up to 32 or 64
     // frames).  Each of those connections still yields exactly one result, the single-segment one.
-    for round in 0..ctx.scale(4, 40, 0) {
-        let cfg = crate::pool::PoolCfg { workers: 1 + (round as usize % 2), queue: 4096, batch: *r.pick(&[32usize, 64]), timeout_ms: 2, max_conn: 1000, with_db: false };
+    //
+    // The second half of the rounds uses queues of one or two frames and 2..4 workers, with a
+    // capture thread that offers a frame again until it is accepted (back-pressure): a frame is
+    // refused while its connection's worker is busy, never handed to another worker, so the
+    // segments of a connection still reach one reader, in order.
+    let loose_rounds = ctx.scale(4, 40, 0);
+    for round in 0..loose_rounds + ctx.scale(6, 40, 0) {
+        let tight = round >= loose_rounds;
+        let cfg = if tight {
+            crate::pool::PoolCfg { workers: 2 + (round as usize % 3), queue: 1 + (round as usize % 2), batch: *r.pick(&[1usize, 4]), timeout_ms: 1, max_conn: 1000, with_db: false }
+        } else {
+            crate::pool::PoolCfg { workers: 1 + (round as usize % 2), queue: 4096, batch: *r.pick(&[32usize, 64]), timeout_ms: 2, max_conn: 1000, with_db: false }
+        };
         let Ok(wp) = Wp::new(cfg) else { continue };
         crate::pool::reset_log(0, 0);
         let mut frames: Vec<Vec<u8>> = Vec::new();
@@ -834,13 +865,21 @@ fn stage_workers(ctx: &mut Ctx, pk: &mut Pk) {
         let t0 = std::time::Instant::now();
         let mut queued = 0u64;
         let mut refused = false;
+        let mut offered_again = 0u64;
         for f in frames {
-            if wp.h.dispatch(f) {
+            let mut accepted = wp.h.dispatch(f.clone());
+            while !accepted && tight && t0.elapsed().as_secs_f64() < STALL_LIMIT_S {
+                offered_again += 1;
+                std::thread::yield_now();
+                accepted = wp.h.dispatch(f.clone());
+            }
+            if accepted {
                 queued += 1;
             } else {
                 refused = true;
             }
         }
+        ctx.class_n("burst-frames-offered-again-after-a-full-queue", offered_again);
         let drained = wp.h.wait_drain(queued, std::time::Duration::from_secs(30));
         let results = wp.h.drain_results();
         wp.h.shutdown();
@@ -865,7 +904,7 @@ fn stage_workers(ctx: &mut Ctx, pk: &mut Pk) {
             });
         }
         ctx.judge(got.is_empty(), &[], "burst through a TLS worker: results for connections that were not sent", || json!({"extra": got.keys().collect::<Vec<_>>()}));
-        ctx.bucket(&format!("workers/burst/w{}/b{}/segmented{}", cfg.workers, cfg.batch, segmented.len()));
+        ctx.bucket(&format!("workers/burst{}/w{}/q{}/b{}/segmented{}", if tight { "-tight-queue" } else { "" }, cfg.workers, cfg.queue, cfg.batch, segmented.len()));
     }
 }
 
@@ -1151,6 +1190,7 @@ pub fn spec() -> PropSpec {
         shards: super::shards_16,
         rule: "history oracle over per-segment return values: each episode delivers one TLS record (plus optional bytes after it) as in-order chunks to TlsClientHelloReader::add_bytes and as in-order TCP data segments of one scripted connection to HuginnNetTls::verif_process_packet (distinct client endpoint per episode, fresh analyzer every 256 episodes, IPv4 and IPv6, with and without a preceding TCP handshake); for a ClientHello exactly one result, on the first segment whose cumulative length reaches 5+record length, equal to the one-segment result (itself checked against ref_ja4 and the parse function); no result for non-ClientHello records; every 2-partition of hellos 60 B..4.6 KiB (thorough ..16 KiB), every 3-partition of hellos <= 200 B (thorough 300 B), byte-by-byte, fixed-size and random k-partitions, 16 KiB and 64 KiB class by random partitions; the same rule for segments dispatched in lock-step to a TLS worker pool with idle gaps between segments; a bucket is a distinct (api, episode kind, corpus, record-length class, segment-count class, first-segment length class and the hello field the first cut falls in, tail length class, bytes-after-record class) combination",
         assumptions: &[
+            "a data segment may carry FIN (PSH|FIN|ACK with payload); tight-queue bursts: a refused frame is offered again until accepted",
             "the first segment holds at least the 5-byte record header; segments arrive in order, without loss, duplication or overlap",
             "one TLS record per episode; bytes after the record never contain 0x16, so no later segment begins a new handshake record (a second ClientHello on the connection is outside the judged domain); the only exception is the episode kind 'trailing-hello-like-segment-with-invalid-record-version': a later segment 16 vv vv .. with record version outside 0x0300..=0x0304, which by the analyzer's own is_tls_traffic rule is not a TLS handshake record and therefore counts as bytes after the record",
             "records longer than 2^14 bytes (RFC 8446 §5.1 forbids them) that yield no result in one segment are only required to yield no result when segmented",
